@@ -269,11 +269,14 @@ impl<F: Write + Seek> MiniAllocator<F> {
         let minifat_entries_per_sector = self.directory.sector_len() / 4;
         if self.minifat_start_sector == consts::END_OF_CHAIN {
             debug_assert!(self.minifat.is_empty());
-            self.minifat_start_sector =
-                self.directory.begin_chain(SectorInit::Fat)?;
+            // Only remember the new chain once the header records it: if
+            // writing the header fails, a retry must start over rather than
+            // skip the header.
+            let start_sector = self.directory.begin_chain(SectorInit::Fat)?;
             let mut header = self.directory.seek_within_header(60)?;
-            header.write_le_u32(self.minifat_start_sector)?;
+            header.write_le_u32(start_sector)?;
             header.write_le_u32(1)?;
+            self.minifat_start_sector = start_sector;
         } else {
             // The MiniFAT chain keeps its sectors when the MiniFAT shrinks,
             // so only extend it once that capacity is used up.
@@ -294,9 +297,11 @@ impl<F: Write + Seek> MiniAllocator<F> {
             }
         }
         // Add a new mini sector to the end of the mini stream and return it.
+        // The mini stream grows first: if that fails, the MiniFAT must not
+        // already describe a mini sector that the mini stream does not have.
         let new_mini_sector = self.minifat.len() as u32;
-        self.set_minifat(new_mini_sector, value)?;
         self.append_mini_sector()?;
+        self.set_minifat(new_mini_sector, value)?;
         Ok(new_mini_sector)
     }
 
